@@ -97,6 +97,16 @@ def init (pa pb : FState) : S :=
   | some _ => copy s
   | none => { s with reg := true }
 
+/-- `chain_future(a, b)` with `a` a `concurrent.futures.Future`: `IOLoop.add_future(a, copy)` registers
+    `lambda f: add_callback(copy, f)`; a concurrent future runs its done-callbacks synchronously when it settles
+    (or at once when it is already done), so `copy` joins the ready queue at the moment `a` settles — as for an
+    asyncio future — but an already-done source does NOT run `copy` inline: the state is the one reached by
+    chaining a pending source and settling it at once. -/
+def initCF (pa pb : FState) : S :=
+  match pa with
+  | some o => settleA o (init none pb)
+  | none => init none pb
+
 def step (s : S) : Op → S
   | .setA o => settleA o s
   | .setB o => settleB o s
@@ -445,6 +455,16 @@ def init (pa : FState) : S :=
   match pa with
   | some _ => rm (copy s)
   | none => { s with regs := [Tok.copy, Tok.rm] }
+
+/-- `with_timeout(deadline, a)` with `a` a `concurrent.futures.Future`: `copy` and the `remove_timeout` lambda are
+    both routed through `IOLoop.add_future` (→ `add_callback` when `a` settles), so an already-done input behaves
+    like a pending one settled at once (nothing runs inline).  (`logs` is not faithful for this kind: there
+    `error_callback` runs synchronously at set time and also logs a cancelled concurrent future; the tie does not
+    compare it.) -/
+def initCF (pa : FState) : S :=
+  match pa with
+  | some o => settleA o (init none)
+  | none => init none
 
 def step (s : S) : Op → S
   | .setA o => settleA o s
